@@ -144,7 +144,7 @@ class Case:
                 'meta': self.meta}
 
 class Outcome:
-    __slots__ = ('ret', 'handlers', 'fault', 'blocks', 'raw')
+    __slots__ = ('ret', 'handlers', 'fault', 'blocks', 'raw', 'statics')
     def __init__(self, line):
         self.raw = line
         f = line.split()
@@ -153,6 +153,7 @@ class Outcome:
         h = d.get('h', '-')
         self.handlers = [] if h == '-' else [tuple(x.split(':')) for x in h.split(',')]
         self.fault = d.get('fault', '-')
+        self.statics = d['st'].split(',') if 'st' in d else []
         self.blocks = []
         i = 0
         while 'b%d' % i in d:
@@ -161,23 +162,24 @@ class Outcome:
 
 def run_driver(cmd, case_file, timeout=1800, env=None):
     with open(case_file) as f:
-        p = subprocess.run(cmd, stdin=f, capture_output=True, text=True, timeout=timeout, env=env)
+        p = subprocess.run(cmd, stdin=(subprocess.DEVNULL if cmd[-1] == case_file else f), capture_output=True, text=True, timeout=timeout, env=env)
     res = {}
     for l in p.stdout.split('\n'):
         if not l or l[0] == '#': continue
         res[l.split(' ', 1)[0]] = Outcome(l)
     return res, p.returncode, p.stderr
 
-def run_impl(impl_dir, case_file, cases, locale=None, wrapper=None):
+def run_impl(impl_dir, case_file, cases, locale=None, wrapper=None, statics=None):
     """runs the C driver; if it dies (a crash the signal handlers cannot absorb) the remaining
     cases are re-run one by one and the crashing one is reported as a fault"""
-    cmd = (wrapper or []) + [impl_dir + '/impl_driver'] + ([locale] if locale else [])
+    base = (wrapper or []) + [impl_dir + '/impl_driver', locale or '-', statics or '-']
+    cmd = base + [case_file]
     res, rc, err = run_driver(cmd, case_file)
     missing = [c for c in cases if c.id not in res]
     for c in missing:
         tmp = case_file + '.one'
         open(tmp, 'w').write(c.line() + '\n')
-        r1, rc1, e1 = run_driver(cmd, tmp)
+        r1, rc1, e1 = run_driver(base + [tmp], tmp)
         if c.id in r1: res[c.id] = r1[c.id]
         else: res[c.id] = Outcome('%s ret=CRASH h=- fault=?crash' % c.id)
     return res
@@ -269,3 +271,50 @@ class Report:
               'violations': len(seen)}
         json.dump(ev, open('%s/evidence/%s.json' % (VERIF, self.pid), 'w'), indent=1, default=str)
         return 1 if seen else 0
+
+# ---------------------------------------------------------------- translator "statics" (C12)
+HANDLER_VARS = {'str_handler', 'mem_handler', 'thrd_str_handler', 'thrd_mem_handler'}
+def statics_inventory(impl_dir):
+    """nm on every freshly compiled library object: all symbols living in writable sections"""
+    inv = []
+    for o in sorted(os.listdir(impl_dir + '/obj')):
+        rc, out, err = sh(['nm', '-S', impl_dir + '/obj/' + o])
+        for l in out.split('\n'):
+            f = l.split()
+            if len(f) == 4 and f[2] in 'bBdDsSgGcC':
+                inv.append((o[:-2], f[3], int(f[1], 16), f[2]))
+    return inv
+
+def write_gen_statics(inv, known_static):
+    lines = ['(* GENERATED on every run by harness/vlib.py (translator "statics"): nm -S on the objects compiled',
+             '   from the working tree; every symbol in a writable section. *)',
+             'From Coq Require Import List String ZArith Bool.', 'Import ListNotations.', 'Local Open Scope string_scope.',
+             'Definition inventory : list (string * string * Z * string) := [']
+    lines.append(';\n'.join('  ("%s", "%s", %d%%Z, "%s")' % e for e in inv))
+    lines.append('].')
+    lines.append('Definition known_finding_statics : list (string * string) := [%s].' % '; '.join('("%s", "%s")' % k for k in known_static))
+    path = COQ + '/Gen/Statics.v'
+    txt = '\n'.join(lines) + '\n'
+    if not os.path.exists(path) or open(path).read() != txt: open(path, 'w').write(txt)
+
+def statics_ranges(impl_dir, inv, out_path):
+    """addresses of the inventory symbols inside the (non-PIE) driver executable; the linker map tells
+    which object file each section contribution (hence each local symbol) came from"""
+    import re
+    contrib = []   # (lo, hi, object)
+    cur = None
+    for l in open(impl_dir + '/driver.map', errors='replace'):
+        m = re.match(r'\s*(\.(?:bss|data|tbss|tdata)[\w.]*)?\s+0x([0-9a-f]+)\s+0x([0-9a-f]+)\s+\S*libimpl\.a\((\w+)\.o\)', l)
+        if m and int(m.group(3), 16) > 0:
+            lo = int(m.group(2), 16); contrib.append((lo, lo + int(m.group(3), 16), m.group(4)))
+    rc, out, err = sh(['nm', '-S', impl_dir + '/impl_driver'])
+    want = set((name, size) for (o, name, size, sec) in inv if name not in HANDLER_VARS)
+    n = 0
+    with open(out_path, 'w') as f:
+        for l in out.split('\n'):
+            p = l.split()
+            if len(p) == 4 and p[2] in 'bBdDsSgGcC' and (p[3], int(p[1], 16)) in want:
+                ad = int(p[0], 16)
+                obj = next((o for lo, hi, o in contrib if lo <= ad < hi), '?')
+                f.write('%s:%s %s %s\n' % (obj, p[3], p[0], p[1])); n += 1
+    return n
